@@ -2,6 +2,7 @@ package main
 
 import (
 	"encoding/json"
+	"math/rand"
 	"os"
 )
 
@@ -23,4 +24,16 @@ func readJSON(path string, v any) {
 	if err := json.Unmarshal(b, v); err != nil {
 		fatal("parse %s: %v", path, err)
 	}
+}
+
+// bigIDs are document ids around the signed/unsigned and the float64-exact boundaries: ids are
+// uint64 everywhere in the API, and code that goes through int, int64 or float64 loses them.
+var bigIDs = []uint64{1<<63 - 1, 1 << 63, 1<<63 + 5, 1<<64 - 1, 1<<53 + 1, 1 << 32}
+
+// genID: mostly a small id below `small` (so that histories revisit ids), sometimes a boundary id
+func genID(rng *rand.Rand, small int) uint64 {
+	if rng.Intn(8) == 0 {
+		return bigIDs[rng.Intn(len(bigIDs))]
+	}
+	return uint64(rng.Intn(small))
 }
